@@ -93,6 +93,8 @@ def driver_model(g, cl):
                     carriers[tg.id] = "sio"
                 elif isinstance(st.value, ast.Constant) and st.value.value == "":
                     carriers[tg.id] = "str"
+                elif v in ("[]", "list()"):
+                    carriers[tg.id] = "list"       # the pieces of the unterminated line, joined when it is completed
     pats = {}
     for n in ast.walk(g.node):
         if isinstance(n, ast.Assign) and isinstance(n.value, ast.Call) and ast.unparse(n.value.func) == "re.compile" and n.value.args \
@@ -130,7 +132,7 @@ def driver_model(g, cl):
             scan = "joined"
     updates = []
     for n in ast.walk(cl):
-        if isinstance(n, ast.Call) and isinstance(n.func, ast.Attribute) and n.func.attr == "write" and ast.unparse(n.func.value) in carriers \
+        if isinstance(n, ast.Call) and isinstance(n.func, ast.Attribute) and n.func.attr in ("write", "append") and ast.unparse(n.func.value) in carriers \
                 and n.args and any(isinstance(x, ast.Name) and x.id == chunk for x in ast.walk(n.args[0])):
             updates.append(n)
         if isinstance(n, ast.AugAssign) and isinstance(n.target, ast.Name) and carriers.get(n.target.id) == "str":
@@ -279,7 +281,8 @@ def rule_driver(ctx, px):
         # first element of the tuple derives from the carried text; second is the empty terminator
         a0 = pyfront.subst_locals(g.node, flush_ev[0][1])
         txt = ast.unparse(a0)
-        derived = any((f"{cn}.getvalue()" in txt) if kind == "sio" else re.search(rf"\b{re.escape(cn)}\b", txt) is not None for cn, kind in model["carriers"].items())
+        derived = any((f"{cn}.getvalue()" in txt) if kind == "sio" else ((f".join({cn})" in txt) if kind == "list" else re.search(rf"\b{re.escape(cn)}\b", txt) is not None)
+                      for cn, kind in model["carriers"].items())
         ctx.ob(R, g.module.rel, f"{g.short} :: flushed text is the carried text", derived,
                "" if derived else f"flush writes {txt}", c.lineno)
         empty_term = isinstance(a0, ast.Tuple) and len(a0.elts) == 2 and isinstance(a0.elts[1], ast.Constant) and a0.elts[1].value == ""
@@ -374,7 +377,7 @@ def rule_straddle(ctx, px):
             tg, vals = n.targets[0], n.value
             pairs = list(zip(tg.elts, vals.elts)) if isinstance(tg, ast.Tuple) and isinstance(vals, ast.Tuple) and len(tg.elts) == len(vals.elts) else [(tg, vals)]
             for t_, v_ in pairs:
-                if isinstance(t_, ast.Name) and "getvalue()" in ast.unparse(v_):
+                if isinstance(t_, ast.Name) and ("getvalue()" in ast.unparse(v_) or any(f".join({cn})" in ast.unparse(v_) for cn, k_ in model["carriers"].items() if k_ == "list")):
                     carried.add(t_.id)
     repairs, weak = [], []
     for n in ast.walk(g.node):
@@ -664,6 +667,10 @@ def rule_pp_contract(ctx, px):
                         verdicts.append(("gt", pl, incs, zeros))
                     elif e2 in (f"{c_}<={n_}", f"{n_}>={c_}"):
                         verdicts.append(("gt", not pl, incs, zeros))
+                    elif e2 in (f"{c_}>={n_}", f"{n_}<={c_}"):
+                        verdicts.append(("ge", pl, incs, zeros))
+                    elif e2 in (f"{c_}<{n_}", f"{n_}>{c_}"):
+                        verdicts.append(("ge", not pl, incs, zeros))
                     elif c_ in e2 and ("<" in e2 or ">" in e2 or "==" in e2):
                         verdicts.append(("other:" + e, pl, incs, zeros))
             elif isinstance(st, ast.AugAssign) and ast.unparse(st.target) == cnt:
@@ -694,8 +701,14 @@ def rule_pp_contract(ctx, px):
                    "a non-empty line must zero the counter and be returned unchanged", r.lineno)
         elif kind == "empty":
             gt = [v for v in verdicts if v[0] == "gt"]
-            other = [v for v in verdicts if v[0] != "gt"]
-            ok = incs == 1 and zeros == 0 and not other and len(gt) == 1 and gt[0][2] == 1 and (is_elide == gt[0][1])
+            ge = [v for v in verdicts if v[0] == "ge"]
+            other = [v for v in verdicts if v[0] not in ("gt", "ge")]
+            ok = incs == 1 and zeros == 0 and not other and not ge and len(gt) == 1 and gt[0][2] == 1 and (is_elide == gt[0][1])
+            # the saturating form of the same automaton: the count is compared *before* it is raised - a run that already holds N empty
+            # lines elides the next one and leaves the count alone, otherwise the line is counted and passed (count = min(run length, N))
+            ok_sat = zeros == 0 and not other and not gt and len(ge) == 1 and ge[0][2] == 0 and \
+                ((is_elide and ge[0][1] and incs == 0) or (is_arg and not ge[0][1] and incs == 1))
+            ok = ok or ok_sat
             ctx.ob(R, le.module.rel, label, ok, "empty line: counted once, elided exactly when count > N" if ok else
                    f"an empty line must be counted once and then elided exactly when the count exceeds N (increments {incs}, zeroings {zeros}, "
                    f"comparisons {[(v[0], v[1]) for v in verdicts]}): otherwise more than N empty lines survive, fewer than N survive, or a "
@@ -857,6 +870,37 @@ def rule_reset(ctx, px):
     ctx.floor(R, n, 2)
 
 
+def rule_limit_installed(ctx, px):
+    """R-C15-PP-CONTRACT, installation clause: "never more than N consecutive empty lines" includes N = 0.  Wherever the package builds a
+    LimitEmptyLines(<n>) from a configured number, the construction may depend on the number being *given* (is not None / key
+    present), never on its truth value - `if n:` drops the limiter exactly for N = 0."""
+    R = "R-C15-PP-CONTRACT"
+    k = 0
+    for f in px.all_funcs:
+        if f.outer is not None or not f.module.name.startswith("nunavut") or f.module.name == "nunavut._postprocessors":
+            continue
+        for c in ast.walk(f.node):
+            if not (isinstance(c, ast.Call) and ast.unparse(c.func).split(".")[-1] == "LimitEmptyLines" and c.args):
+                continue
+            k += 1
+            arg = ast.unparse(pyfront.subst_locals(f.node, c.args[0])).replace(" ", "")
+            raw = ast.unparse(c.args[0]).replace(" ", "")
+            gd = pyfront.guards_of(f.node, c) or ()
+            bad = []
+            for t_, pol in gd:
+                for e, p_ in pyfront.guard_terms([(t_, pol)]):
+                    e1 = e.replace(" ", "")
+                    e2 = ast.unparse(pyfront.subst_locals(f.node, ast.parse(e, mode="eval").body)).replace(" ", "") if e else e1
+                    if p_ and (e1 in (arg, raw, f"bool({arg})", f"bool({raw})", f"{raw}>0", f"{arg}>0", f"{raw}!=0", f"{arg}!=0") or e2 in (arg, f"bool({arg})", f"{arg}>0", f"{arg}!=0")):
+                        bad.append(e)
+                    if not p_ and e1 in (f"not{raw}", f"not{arg}", f"{raw}==0", f"{arg}==0"):
+                        bad.append("not (" + e + ")")
+            ctx.ob(R, f.module.rel, f"{f.short} :: LimitEmptyLines({ast.unparse(c.args[0])[:40]}) is installed whenever a limit is given, 0 included", not bad,
+                   "" if not bad else f"constructed only under the truth value of the number ({bad}): with a limit of 0 no limiter is installed, so empty lines are not "
+                   "removed at all (or a language default of 1 takes over)", c.lineno)
+    ctx.floor(R + ":installation", k, 3)
+
+
 def run(ctx):
     ctx.explanation = (
         "C15 is decided on the shape of the line-buffer driver and of the two built-in line processors: all lines and "
@@ -869,5 +913,6 @@ def run(ctx):
     rule_driver(ctx, px)
     rule_straddle(ctx, px)
     rule_pp_contract(ctx, px)
+    rule_limit_installed(ctx, px)
     rule_copy(ctx, px)
     rule_reset(ctx, px)
